@@ -58,6 +58,12 @@ Theorem C02_windows_after_cleanup : forall p en mm prog,
 Proof. exact cleanup_program_windows. Qed.
 Print Assumptions C02_windows_after_cleanup.
 
+(* the independent additive reading of a Loop (body played rep times one after the other; oracle of the hand-built
+   loop cases, Corr.exec_windows) is exactly what _get_measurement_windows' tiling computes *)
+Theorem C02_loop_windows_additive : forall l, QV.C02.Corr.exec_windows l = loop_windows l.
+Proof. exact exec_windows_eq. Qed.
+Print Assumptions C02_loop_windows_additive.
+
 (* non-vacuity: a reversed repetition inside a sequence with renaming satisfies the hypotheses of C02_windows and
    C02_inside (a program is produced, all declarations inside their nodes) and reports 4 windows *)
 Example C02_example :
